@@ -5,7 +5,7 @@ from hypothesis import strategies as st
 
 from hv import strat
 from hv.builders import vmdk as bvmdk
-from hv.core import Outcome, check_reads, lib
+from hv.core import DEBUG_LOG_ENV, Outcome, check_reads, lib
 
 ID = "C02"
 RULE = (
@@ -35,7 +35,7 @@ VARIANT_DISTINCT_SEEDS = True
 def variants(tier):
     # the module's logging switch (read at import time) must not change what is read
     return [{"name": "default", "env": {}, "shards": 12},
-            {"name": "debug-logging", "env": {"DISSECT_LOG_VMDK": "DEBUG"}, "args": {"budget_scale": 0.2}, "shards": 4}]
+            {"name": "debug-logging", "env": DEBUG_LOG_ENV, "args": {"budget_scale": 0.2}, "shards": 4}]
 
 
 @st.composite
